@@ -255,10 +255,66 @@ def audit_real_pair(pair, failures, stats):
                                      f"{scen_off} gives {off[m]!r} ({len(low)} of {len(on)} months lower)", "month": m})
 
 
+ROUND_NAMES = {3: [("1", "first_round"), ("2", "second_round"), ("3", "third_round")], 1: [("3", "third_round")]}
+
+
+def three_round_run(spec):
+    """full run of one country with every optimiser input captured -> (options, list of lp_in, error)"""
+    import runutil
+    runutil.redirect_results()
+    opt = runutil.presets()[spec["preset"]] if "preset" in spec else copy.deepcopy(spec["options"])
+    opt = dict(opt, **spec.get("override", {}))
+    try:
+        with runutil.OptimizerCapture(want_rows=False) as cap, runutil.quiet():
+            runutil.run_country(spec["iso3"], opt)
+    except BaseException as e:
+        return opt, [], type(e).__name__ + ": " + str(e)[:120]
+    bad = [s.get("capture_error") for s in cap.solves if s.get("capture_error")]
+    return opt, [s["lp_in"] for s in cap.solves if "lp_in" in s], (bad[0] if bad else None)
+
+
+def audit_handoff(spec, failures, stats):
+    """no cropland lost or double counted between the parameter layer and ANY round's optimiser: the outdoor-crop and
+    greenhouse series each solve receives == the first-round series == the documented function of the inputs"""
+    import c08_impl
+    opt, lps, err = three_round_run(spec)
+    stats["handoff_runs"] += 1
+    if err or len(lps) not in ROUND_NAMES:
+        stats["handoff_skipped"] += 1
+        stats.setdefault("handoff_notes", []).append(f"{spec['iso3']}: {err or str(len(lps)) + ' solves'}")
+        return
+    r = c08_impl.run_case({"kind": "real", "iso3": spec["iso3"], "options": opt})
+    if not r.get("crops"):
+        stats["handoff_skipped"] += 1
+        return
+    ci, co = r["crops"]["inputs"], r["crops"]["obs"]
+    want = [float(x) for x in closed_form(ci, r["crops"]["pw"])[0]] if (ci["add"] or ci["gadd"]) else list(co["prod"])
+    for (k, rname), lp in zip(ROUND_NAMES[len(lps)], lps):
+        stats["checks"] += 2
+        stats["handoff_rounds"] += 1
+        for key, ref, refname in (("crops_prod", co["prod"], "the first-round series"), ("crops_prod", want, "grown x (1 - greenhouse fraction) x (1 - waste)"),
+                                  ("greenhouse", co["ghk"], "the first-round greenhouse series")):
+            got = lp[key]
+            scale = max([abs(x) for x in ref], default=0.0)
+            bad = None if len(got) == len(ref) else -1
+            if bad is None:
+                bad = next((m for m in range(len(ref)) if relerr(got[m], ref[m], scale) > REL), None)
+            if bad is not None:
+                nm = "crop" if key == "crops_prod" else "greenhouse"
+                kind = f"{nm}-series-handed-to-round{k}-differs@compute_parameters_{rname}"
+                failures.append({"kind": kind, "kind_of_failure": kind, "handoff": spec, "month": bad,
+                                 "what": f"{spec['iso3']} {spec.get('preset') or opt.get('scenario')}: round {k} optimiser receives "
+                                         f"{got[bad] if bad >= 0 else len(got)!r} for month {bad}, {refname} is {ref[bad] if bad >= 0 else len(ref)!r}"})
+                break
+
+
 def run(payload):
     failures = []
     stats = {"cases": 0, "rejected": 0, "distinct": 0, "checks": 0, "pw_samples": 0, "tiny": 0, "relocation_pairs": 0,
-             "expansion_pairs": 0, "real_pairs": 0, "real_pairs_rejected": 0}
+             "expansion_pairs": 0, "real_pairs": 0, "real_pairs_rejected": 0,
+             "handoff_runs": 0, "handoff_skipped": 0, "handoff_rounds": 0}
+    for spec in payload.get("handoff", []):
+        audit_handoff(spec, failures, stats)
     for pair in payload.get("real_pairs", []):
         audit_real_pair(pair, failures, stats)
     for c in payload["cases"]:
